@@ -35,6 +35,14 @@ NextWith(steps) ==      \* steps: the set of [c, cmd] the alphabet offers in sta
 StepProps == AllStepProps(S, ev'.c, ev'.cmd, [st |-> S', out |-> ev'.out])
 StepPropsHold == [][StepProps]_vars
 StateProps == AllStateProps(S)
+Inv_Sym == InvSym(S)
+Inv_Owner == InvOwner(S)
+Inv_Counters == InvCounters(S)
+Inv_Wallops == InvWallops(S)
+Inv_EmptyChan == InvEmptyChan(S)
+Inv_C04Views == C04_State(S)
+Inv_C16 == C16_State(S)
+Inv_WF == WF(S)
 
 (* one line per transition: the whole behaviour that ends with it *)
 ExportEdge == PrintT(<<"EDGE", ToJson([steps |-> hist'])>>)
